@@ -130,6 +130,14 @@ for r in RECL_ALL:
 # a thread exits (abandoning what it retired) while another thread is in the middle of a scan and a third one holds a guard (seed C17)
 for r in ["hp", "hpd", "he", "hed"]:
     _c17_quick.append(run("reclaim", "proto_" + r, c=2, opt={"ops": 0x22, "T": 3, "m": 1}, weight=1.0))
+# backlog bound: scan threshold proportional to the hazard pointers / eras of the threads that are ALIVE (A = 1, K = 3): after the generations a lone
+# thread may accumulate at most A*K*(T+1)+B+1 = 10 unprotected retired nodes before the first one is destroyed (seed C17b: counter never decremented on exit)
+for r in ["hp_a1", "he_a1"]:
+    _c17_quick.append(run("reclaim", "proto_" + r, c=1, opt={"ops": 0x62, "allow_update_only": 1, "gens": 2, "m": 1, "backlog": 10}, weight=0.5))
+    _c17_thorough.append(run("reclaim", "proto_" + r, c=2, opt={"ops": 0x62, "allow_update_only": 1, "gens": 2, "m": 1, "backlog": 10}, weight=2))
+    _c17_thorough.append(run("reclaim", "proto_" + r, c=1, opt={"ops": 0x62, "allow_update_only": 1, "gens": 3, "m": 1, "backlog": 10}, weight=2))
+for r in ["hpd_a1", "hed_a1"]:
+    _c17_thorough.append(run("reclaim", "proto_" + r, c=1, opt={"ops": 0x62, "allow_update_only": 1, "gens": 3, "m": 1, "backlog": 8}, weight=2))
 for r in RECL_ALL:
     _c17_thorough.append(run("reclaim", "proto_" + r, c=2, opt={"ops": 0x62, "T": 3, "m": 1}, weight=2.0))
 for r in ["hp", "hpd", "he", "hed", "lfrc"]:
@@ -140,7 +148,9 @@ PLAN["C17"] = {
             "as part of the execution), each running an enumerated program of guarded reads / holds / unlink+reclaim; after every generation T0 flushes through the "
             "public API and checks (a) the C01/C02 oracles across record reuse, (b) the census: everything retired so far is destroyed although its retirer has exited, "
             "(c) live heap allocations not belonging to client nodes <= footprint of T0 + T x (measured footprint of one thread); in addition three concurrently live threads "
-            "(holder, two unlinkers) with one operation each, so that a thread exits - abandoning what it retired - while another thread is inside a scan",
+            "(holder, two unlinkers) with one operation each, so that a thread exits - abandoning what it retired - while another thread is inside a scan; (d) backlog bound for "
+            "hazard pointers / eras with a scan threshold proportional to the live slots (A=1): after all generations a lone thread retires unprotected nodes one at a time and "
+            "the first destruction must come within the bound given by the threads alive at a time",
     "assumptions": ["per-thread footprint is measured on T0 performing the same kinds of guard operations as the workers"],
 }
 LEVEL_TEXT["C17"] = ("all interleavings with <= c preemptions of all enumerated multi-generation thread programs (threads created, exiting and being replaced) for 13 "
@@ -491,7 +501,9 @@ PLAN["C18"] = {
               run("guards", "slots_hp_k1", c=0, opt={"depth": 2, "guards": 2, "gens": 2, "ops": 0x9b}), run("guards", "slots_he_k2", c=0, opt={"depth": 2, "guards": 3, "gens": 2, "ops": 0x99}),
               # exhaustion in a later era and what follows the refusal (seed C18, finding F-C18-2): slots held in distinct eras
               run("guards", "slots_he_k1", c=0, opt={"depth": 4, "guards": 2, "fill": 1, "ops": 0x99}), run("guards", "slots_he_k2", c=0, opt={"depth": 4, "guards": 3, "altfill": 1, "ops": 0x99}, weight=2),
-              run("guards", "slots_hp_k2", c=0, opt={"depth": 4, "guards": 3, "altfill": 1, "ops": 0x99})],
+              run("guards", "slots_hp_k2", c=0, opt={"depth": 4, "guards": 3, "altfill": 1, "ops": 0x99}),
+              # concurrent: acquire_if_equal refused because the source changed between its two loads; the emptied guard must not keep its slot (seed C18b)
+              run("guards", "snap_hp", c=2)],
     "thorough": [run("guards", "slots_hp_k1", c=0, opt={"depth": 4, "guards": 3}, weight=4), run("guards", "slots_hp_k2", c=0, opt={"depth": 4, "guards": 3}, weight=6),
                  run("guards", "slots_hp_k3", c=0, opt={"depth": 4, "guards": 5, "fill": 2, "ops": 0x31b}, weight=6),
                  run("guards", "slots_hp_k5", c=0, opt={"depth": 4, "guards": 7, "fill": 4, "ops": 0x119}, weight=6),
@@ -502,7 +514,8 @@ PLAN["C18"] = {
                  run("guards", "slots_hp_k2", c=0, opt={"depth": 3, "guards": 3, "gens": 3}, weight=4), run("guards", "slots_he_k2", c=0, opt={"depth": 3, "guards": 3, "gens": 3}, weight=4),
                  run("guards", "slots_he_k1", c=0, opt={"depth": 6, "guards": 2, "fill": 1, "ops": 0x99}, weight=3), run("guards", "slots_he_k2", c=0, opt={"depth": 5, "guards": 3, "altfill": 1, "ops": 0x99}, weight=6),
                  run("guards", "slots_he_k3", c=0, opt={"depth": 4, "guards": 4, "altfill": 1, "ops": 0x99}, weight=3), run("guards", "slots_hp_k2", c=0, opt={"depth": 5, "guards": 3, "altfill": 1, "ops": 0x99}, weight=4),
-                 run("guards", "slots_hed_k1", c=0, opt={"depth": 5, "guards": 3, "altfill": 1, "ops": 0x99}, weight=3)],
+                 run("guards", "slots_hed_k1", c=0, opt={"depth": 5, "guards": 3, "altfill": 1, "ops": 0x99}, weight=3),
+                 run("guards", "snap_hp", c=3, opt={"replaces": 2, "acquires": 2}, weight=4)],
     "budget_s": {"quick": 170, "thorough": 1200},
     "rule": "one thread, all sequences of depth 3-4 over guard operations {acquire, acquire_if_equal, reset, copy-assign, move-assign, swap, reclaim, copy-construct, construct from "
             "pointer} on K+1..K+2 guard variables (K in 1,2,3,5; for K>=3 the first guards are pre-filled and the alphabet reduced), static and dynamic strategies, hazard "
@@ -511,7 +524,8 @@ PLAN["C18"] = {
             "the era of every guard - one era step per retirement - and demands bad_hazard_era_alloc when the other guards already hold K distinct eras none of which is the "
             "current one, otherwise they may or may not throw), the dynamic strategy never throws; after every step every guard refers to its node and the node is alive; a "
             "refused acquire leaves the guard unchanged or empty; every sequence ends with an unlink-and-retire storm after which every node still held must be alive; "
-            "afterwards K guards can be held at once and repeated acquire/reset never exhausts the slots",
+            "afterwards K guards can be held at once and repeated acquire/reset never exhausts the slots; concurrently (snap_hp): whenever acquire_if_equal is refused - also "
+            "because another thread changed the source between its two loads - the emptied guard holds no slot: K further guards can be held",
     "assumptions": [],
 }
 LEVEL_TEXT["C18"] = ("exhaustive enumeration of guard operation sequences to depth 3-4 (4-6 over a reduced alphabet with slots held in distinct eras) for K in {1,2,3,5}, hazard pointers and hazard eras, static and dynamic strategy, with thread exit and "
